@@ -203,4 +203,9 @@ def plan(tier):
                       space='generator<int,int> read by a callback awaiter (as generator_aggregator does): on every notification the consumer hands over the argument of its next request inside the notification and lets the '
                             'generator run at once (still inside the notification) or after the notification has returned; bodies of 0..3 yields, each preceded by nothing or by an await of a pending future completed by the harness; full product',
                       data='arguments and awaited results: unconstrained 32-bit ints (symbolic)', bounds='<= 3 yields', outside='see h_gen_arg'))
+    units.append(dict(engine='e1', name='fut_cb_consumer', tu='C13cb.cpp', entry='h_gen_fut_cb', unwind=12, vectors=vcb,
+                      concrete=[([0, 2, 0, 1], [1, 2, 3, 4, 5, 6, 7]), ([1, 3, 1, 0, 1], [1, 2, 3, 4, 5, 6, 7, 8]), ([1, 0], [9, 9, 9, 9, 9])],
+                      space='generator<int,int> read through its future interface by a callback awaiter: every request is g(arg), the awaiter is subscribed to the returned future<int>; on every notification the consumer reads the value '
+                            'and issues its next request inside the notification or after it has returned; bodies of 0..3 yields, each preceded by nothing or by an await of a pending future completed by the harness; full product',
+                      data='arguments and awaited results: unconstrained 32-bit ints (symbolic)', bounds='<= 3 yields', outside='see h_gen_arg'))
     return units
